@@ -686,7 +686,7 @@ impl World {
             "stage_replay" => self.op_stage_replay(r),
             "snapshot" => self.op_snapshot(r),
             "deliver" => self.op_deliver(r, op["from"].as_u64().unwrap() as usize % self.reps.len(), op["pick"].as_u64().unwrap() as usize),
-            "timetravel" => self.op_timetravel(r, op["pick"].as_u64().unwrap() as usize),
+            "timetravel" => self.op_timetravel(r, op["pick"].as_u64().unwrap() as usize, op.get("stay").and_then(|x| x.as_bool()).unwrap_or(false)),
             "delete_object" => self.op_delete_object(r, op["pick"].as_u64().unwrap() as usize),
             "objapi" => self.op_objapi(r, op),
             "failcommit" => self.op_failcommit(r, op),
@@ -1291,7 +1291,7 @@ impl World {
         }
     }
 
-    fn op_timetravel(&mut self, r: usize, pick: usize) {
+    fn op_timetravel(&mut self, r: usize, pick: usize, stay: bool) {
         if self.reps[r].heads_log.is_empty() {
             return;
         }
@@ -1336,6 +1336,15 @@ impl World {
             }
         }
         self.check_graph(r);
+        if stay {
+            // the history goes on from the past state (a later commit forks the graph)
+            self.reps[r].dirty = true;
+            *self.stats.entry("timetravel_and_stay".into()).or_insert(0) += 1;
+            for (p, w) in fails {
+                self.fail(p, w);
+            }
+            return;
+        }
         let m = self.reps[r].m.as_ref().unwrap();
         let rl = m.reload();
         self.emit("reload", r, if rl.is_ok() { "ok" } else { "err" }, json!({}));
@@ -2077,7 +2086,7 @@ pub fn gen_op(w: &World, g: &mut Rng, sim_faults: bool) -> Value {
         }
         78..=80 => json!({"op": "snapshot", "r": r}),
         81..=89 => json!({"op": "deliver", "r": r, "from": other, "pick": g.below(16)}),
-        90..=92 => json!({"op": "timetravel", "r": r, "pick": g.below(16)}),
+        90..=92 => json!({"op": "timetravel", "r": r, "pick": g.below(16), "stay": g.chance(1, 3)}),
         93 => {
             if g.chance(1, 2) {
                 json!({"op": "delete_object", "r": r, "pick": g.below(8)})
